@@ -168,6 +168,16 @@ CLAIMED = {
          'Proof: override_applied / override_unset / totals_formula / override_independent for all six overrides and all values '
          '(0 and 1 included). The ties exercise all 64 subsets with boundary values on synthetic and shipped libraries.',
          'Trusted: as C07.', 'DESIGN.md section 4 C08'),
+ 'C06': ('Lean 4 theorems (core Lean: JSON trees, association maps, structural recursion over rows) about models of the setters, '
+         'to_dict/from_dict of every class, the keyword route and the .uwg reader; parameter table regenerated from the source by a '
+         'translator on every run; tied to the real routines and to byte-identical simulations over all routes',
+         'Proof: from_dict(to_dict) is the identity on every valid model incl. custom reference vectors, to_dict is stable, the reader '
+         'returns the same map for every layout (permuted blocks, comments and blank rows between blocks, key case, spaces, number '
+         'spelling), keyword / dict / file routes give the same record, and the regenerated parameter table is closed (every name has '
+         'a recognised setter, is emitted, consumed and readable). Routes are also run end to end (kwargs, dict, JSON, file, both CLI '
+         'commands) and must give byte-identical EPW files and equal records; float-order effects at the cover-sum boundary are probed.',
+         'Trusted: Lean kernel (core only), the ast translator harness/extract/paramtable.py (fingerprints of bespoke setters), '
+         'Python csv/json/click layers, the simulation itself for "equal records simulate identically".', 'DESIGN.md section 4 C06'),
 }
 NOT_YET = 'check not built yet in this session (work in progress; see DESIGN.md section 4)'
 
